@@ -8,7 +8,7 @@ from . import core
 
 LO, HI = 2, 5
 KIND = {"int": "int", "uint": "uint", "float": "float64", "bool": "bool", "string": "string", "bytes": "bytes",
-        "int32": "int32", "int64": "int64", "uint32": "uint32", "uint64": "uint64", "float32": "float32"}
+        "int32": "int32", "int64": "int64", "uint32": "uint32", "uint64": "uint64", "float32": "float32", "any": "any"}
 INTS, UINTS, FLOATS = ("int", "int32", "int64"), ("uint", "uint32", "uint64"), ("float", "float32")
 LETTERS = "abcdefghij"
 DATE = "2001-02-03"
@@ -51,11 +51,13 @@ def attr_design(a, name, tprefix, types):
         if leafval:
             att["val"] = leafval
     elif nest == "alias":
-        tn = tprefix + "Alias"
-        t = {"name": tn, "kind": "alias", "base": prim}
-        if leafval:
-            t["val"] = leafval
-        types.append(t)
+        # one alias type per (method, kind, rule): two attributes of the same shape share it
+        tn = "%sAl%s%s" % (tprefix.rstrip("0123456789")[:-1], a["kind"].capitalize(), a["rule"].capitalize())
+        if not any(t["name"] == tn for t in types):
+            t = {"name": tn, "kind": "alias", "base": prim}
+            if leafval:
+                t["val"] = leafval
+            types.append(t)
         att["type"] = {"kind": "user", "ref": tn}
     elif nest == "elem":
         e = dict(prim)
@@ -148,6 +150,8 @@ def concrete_leaf(a, v):
         return n + 0.5 if s == "half" else float(n)
     if k == "bool":
         return n == 1
+    if k == "any":
+        return {"half": 3.5, "big": float(2 ** 53), "plain": "abc", "bool": True}[s]
     if k == "bytes":
         return {"$bytes": base64.b64encode(bytes(range(1, n + 1))).decode()}
     # string
@@ -179,7 +183,7 @@ def filler(a):
         return 3
     if k in FLOATS:
         return 3.5
-    return {"bool": True, "bytes": {"$bytes": "AQID"}}[k]
+    return {"bool": True, "bytes": {"$bytes": "AQID"}, "any": "abc"}[k]
 
 
 def concrete(a, v):
